@@ -110,7 +110,8 @@ Fixpoint find_field (l : list (nat * nat * bool * nat)) (oc a : nat) : option (b
 Definition case_cmodel (c : mcase) : cmodel :=
   {| sub := pair_mem (c_sub c);
      f_iter := fun oc a => match find_field (c_fields c) oc a with Some (it, _) => it | None => false end;
-     f_type := fun oc a => match find_field (c_fields c) oc a with Some (_, d) => Some d | None => None end |}.
+     f_type := fun oc a => match find_field (c_fields c) oc a with Some (_, d) => Some d | None => None end;
+     f_opt := pair_mem (c_opt c) |}.
 Definition case_objcls (c : mcase) : cls -> bool := fun d => nmemb d (c_objcls c).
 
 (* boolean versions of the hypotheses over the finite data of a case *)
